@@ -21,4 +21,58 @@ theorem same_future_partial (g : G L D) (ops : List (Op L D)) : run (clone g) op
 theorem clone_refines (g : G L D) (r : R L D) (h : Rel g r) (ops : List (Op L D)) (hv : Valid g.n (cap g) r ops) :
     run (clone g) ops = some (R.run (cap g) r ops) := theoremA ops g r h hv
 
+/-! ### several graphs in one process (the statement of C10 written out on a world of handles)
+
+In the model a graph is a value, so these hold by construction; they are stated so that the property is visible in Lean at
+full length. That the Rust `clone()` produces such an independent value is what the correspondence check examines. -/
+
+/-- a process: handles holding graphs -/
+structure World (L D : Type) where
+  gs : Nat → Option (G L D)
+
+/-- `b = a.clone()` -/
+def World.clone (w : World L D) (a b : Nat) : World L D := { gs := fun h => if h = b then w.gs a else w.gs h }
+
+/-- a call on the graph of handle `a`, on the total model (a panic leaves the partial state behind) -/
+def World.call (w : World L D) (a : Nat) (op : Op L D) : World L D × Option (Out L D) :=
+  match w.gs a with
+  | none => (w, none)
+  | some g => ({ gs := fun h => if h = a then some (stepT g op).1 else w.gs h }, (stepT g op).2)
+
+/-- calls on one handle, collecting the answers -/
+def World.calls (w : World L D) (a : Nat) : List (Op L D) → World L D × List (Option (Out L D))
+  | [] => (w, [])
+  | op :: ops => let r := (w.call a op).1.calls a ops; (r.1, (w.call a op).2 :: r.2)
+
+/-- **mutating either graph never changes the other**: a call on `a` leaves the graph of every other handle as it is -/
+theorem independent (w : World L D) (a b : Nat) (op : Op L D) (hab : b ≠ a) : ((w.call a op).1).gs b = w.gs b := by
+  unfold World.call
+  cases w.gs a with
+  | none => rfl
+  | some g => simp [hab]
+
+theorem independent_calls (w : World L D) (a b : Nat) (ops : List (Op L D)) (hab : b ≠ a) : ((w.calls a ops).1).gs b = w.gs b := by
+  induction ops generalizing w with
+  | nil => rfl
+  | cons op ops ih => simp only [World.calls]; rw [ih, independent w a b op hab]
+
+theorem calls_eq_runT (w : World L D) (a : Nat) (g : G L D) (h : w.gs a = some g) (ops : List (Op L D)) :
+    (w.calls a ops).2 = (runT g ops).2 := by
+  induction ops generalizing w g with
+  | nil => rfl
+  | cons op ops ih =>
+    simp only [World.calls, runT]
+    have hc : (w.call a op).1.gs a = some (stepT g op).1 := by simp [World.call, h]
+    have h2 : (w.call a op).2 = (stepT g op).2 := by simp [World.call, h]
+    rw [ih _ _ hc, h2]
+
+/-- **a clone answers every query as the original does and keeps doing so under the same subsequent calls** (also calls
+    beyond the limits, also after panics), **whatever was done to the original in between** -/
+theorem clone_same_future (w : World L D) (a b : Nat) (hab : b ≠ a) (g : G L D) (h : w.gs a = some g)
+    (between ops : List (Op L D)) :
+    ((((w.clone a b).calls a between).1).calls b ops).2 = (w.calls a ops).2 := by
+  have hb : (((w.clone a b).calls a between).1).gs b = some g := by
+    rw [independent_calls _ a b between hab]; simp [World.clone, h]
+  rw [calls_eq_runT _ b g hb, calls_eq_runT w a g h]
+
 end Props.C10
